@@ -46,6 +46,7 @@ func runC01(c *Ctx) {
 	c01R6(c)
 	c01R7(c)
 	c01R8(c)
+	c08R12As(c, c.R.Rule("R10", "K9 (= C08.R12) the original of a split record is acked only when all its pieces are: the split ledger's member count starts at 1 and grows by len(recs)-1 per split, in SplitRecord only (never recounted from a sub-batch's local view)", 2))
 	c05SharedDest(c, c.R.Rule("R9", "K4/K3 (= C05.R4) v2 shared destination: a worker enters a shared subtree only under sharedMu and re-checks the poison flag after acquiring it, so it never reads a failed pass's leftover destination replies as its own confirmation", 6))
 }
 
@@ -117,7 +118,10 @@ func isConstObj(v ssa.Value, obj types.Object) bool {
 
 // R2: v1 destination confirmation gates.
 func c01R2(c *Ctx) {
-	r := c.R.Rule("R2", "K3 v1: a message is acked only on the position-match edge with the destination's ack (or when filtered) and only when the ack carries no error; the DLQ destination returns nil only for one matching error-free ack", 5)
+	c01R2As(c, c.R.Rule("R2", "K3 v1: a message is acked only on the position-match edge with the destination's ack (or when filtered) and only when the ack carries no error; the DLQ destination returns nil only for one matching error-free ack", 5))
+}
+
+func c01R2As(c *Ctx, r string) {
 	bytesEqual := c.ExtFunc(r, "bytes", "Equal")
 	handleAck := c.Fn(r, pStream, "(*DestinationAckerNode).handleAck")
 	msgAck := c.Fn(r, pStream, "(*Message).Ack")
@@ -514,7 +518,10 @@ func c01R4As(c *Ctx, r string) {
 
 // R5: v2 end-of-chain ack.
 func c01R5(c *Ctx) {
-	r := c.R.Rule("R5", "K3 v2: Worker.doTaskAttempt hands a batch to acker.Ack only when no task follows or the batch has no active records", 2)
+	c01R5As(c, c.R.Rule("R5", "K3 v2: Worker.doTaskAttempt hands a batch to acker.Ack only when no task follows or the batch has no active records", 2))
+}
+
+func c01R5As(c *Ctx, r string) {
 	fn := c.SSA(r, pFunnel, "(*Worker).doTaskAttempt")
 	if fn == nil {
 		return
@@ -638,7 +645,10 @@ func c01R6(c *Ctx) {
 
 // R7: v2 split-run withholding.
 func c01R7(c *Ctx) {
-	r := c.R.Rule("R7", "K3 v2: runAckNacker forwards a split run to the parent only on the run-complete edge, marks it released first, and refuses votes on a released run", 3)
+	c01R7As(c, c.R.Rule("R7", "K3 v2: runAckNacker forwards a split run to the parent only on the run-complete edge, marks it released first, and refuses votes on a released run", 3))
+}
+
+func c01R7As(c *Ctx, r string) {
 	vote := c.SSA(r, pFunnel, "(*runAckNacker).vote")
 	if vote == nil {
 		return
@@ -727,6 +737,33 @@ func c01R7(c *Ctx) {
 	}
 	if len(fwd) == 0 {
 		c.R.Fail(r, "vote: parent forward calls", c.Pos(vote.Pos()), "no hand-off of a completed run to the parent found in runAckNacker.vote")
+	}
+	// every hand-off to the parent (completed runs AND standalone records) happens inside the per-record
+	// walk `for i < len(batch.records)`: an empty batch forwards nothing (Source.Ack indexes p[len(p)-1])
+	{
+		recordsF := c.Field(r, pFunnel, "Batch", "records")
+		gLoop := kit.NewGates().AddEdges(kit.RelEdges(vote,
+			func(v ssa.Value) bool { _, isPhi := v.(*ssa.Phi); return isPhi },
+			func(v ssa.Value) bool { return kit.IsLenOf(v, func(x ssa.Value) bool { return kit.IsFieldLoad(x, recordsF) }) },
+			kit.RelLT), "i < len(batch.records)")
+		var all []ssa.Instruction
+		for _, b := range vote.Blocks {
+			for _, in := range b.Instrs {
+				call, ok := in.(*ssa.Call)
+				if !ok {
+					continue
+				}
+				f := kit.CalleeOf(call.Common())
+				if f == ackM || f == nackM {
+					all = append(all, call)
+					continue
+				}
+				if h := call.Call.StaticCallee(); h != nil && h.Pkg == vote.Pkg && (len(kit.CallsTo(h, Set(ackM))) > 0 || len(kit.CallsTo(h, Set(nackM))) > 0) {
+					all = append(all, call)
+				}
+			}
+		}
+		c.Dominated(r, "vote: the parent is reached only from inside the per-record walk", all, gLoop, "the i < len(batch.records) edge (an empty batch forwards nothing)")
 	}
 	c.Dominated(r, "vote: parent.Ack/Nack only when the run completed", asInstrs(fwd), g, "the done==true edge of run.complete()")
 	// released=true store precedes the forward
